@@ -341,7 +341,7 @@ fn plan_c16(thorough: bool) -> Plan {
 }
 
 fn mk_multiworker_case(seed: &str, cfg: &Cfg, ops: Vec<Value>) -> Value {
-    json!({"seed": seed, "universe": ["seed:all"], "cfg": cfg.to_json(), "audit": "values", "ops": ops, "bound": 3, "final_reopen": true})
+    json!({"seed": seed, "universe": ["seed:all"], "cfg": cfg.to_json(), "audit": "values", "ops": ops, "bound": 1, "final_reopen": true})
 }
 
 fn plan_c19(thorough: bool) -> Plan {
@@ -376,10 +376,10 @@ fn plan_c19(thorough: bool) -> Plan {
     // … and every schedule of the three leaf-stage workers of the merge-heavy commits (M2*), the
     // branch-stage hand-over (M3*) with the same full page accounting after each schedule
     for h in ["M2del", "M2shrink", "M2wipe"] {
-        cases.push(json!({"harness": h, "bound": 99, "max_exec": if thorough { 400000 } else { 3000 }, "budget_s": if thorough { 1500 } else { 35 }}));
+        cases.push(json!({"harness": h, "bound": 1, "pbound": 99, "max_exec": if thorough { 400000 } else { 3000 }, "budget_s": if thorough { 1500 } else { 35 }}));
     }
     for h in ["M3", "M3b"] {
-        cases.push(json!({"harness": h, "bound": 0, "max_exec": 3000, "budget_s": 35}));
+        cases.push(json!({"harness": h, "bound": 1, "pbound": 0, "max_exec": 3000, "budget_s": 35}));
     }
     add_quiet(&mut cases, if thorough { 1 } else { 3 });
     sort_by_bound(&mut cases);
@@ -566,6 +566,27 @@ pub fn root_layer_histories(thorough: bool) -> Vec<(Value, usize, u64)> {
     out
 }
 
+
+/// A commit whose WAL blob ends exactly at a page boundary (its END tag is the last byte of the
+/// 12 288-byte file: 58 page records with 266 changed nodes): 57 groups of four keys (one depth-1
+/// merkle page each) written in full, then a commit rewriting all four keys of 9 groups, two keys of
+/// one group and one key of the remaining 47. The geometry was found by measuring (`mc walsize`);
+/// the run reports the goal `wal-end-tag-at-page-boundary` when it is still hit.
+pub fn wal_geometry_histories() -> Vec<(Value, usize, u64)> {
+    let mut cfg = cfg_crash();
+    cfg.buckets = 256;
+    let k = 57u64;
+    let full: Vec<Value> = (0..k).flat_map(|i| (0..4u64).map(move |s| json!([i * 4 + s, "w", 1]))).collect();
+    let mut b: Vec<Value> = vec![];
+    for i in 0..k {
+        let keys: &[u64] = if i < 9 { &[0, 1, 2, 3] } else if i == 9 { &[0, 1] } else { &[0] };
+        for s in keys {
+            b.push(json!([i * 4 + s, "w", 2]));
+        }
+    }
+    vec![(hist("empty", vec!["QUADS:57"], &cfg, vec![json!({"c": full}), json!({"c": b})]), 1, 3)]
+}
+
 pub fn crash_plan(prop: &str, tier: &str) -> Plan {
     let thorough = tier == "thorough";
     let hs = crash_histories(thorough);
@@ -578,7 +599,20 @@ pub fn crash_plan(prop: &str, tier: &str) -> Plan {
     };
     let mut hs = hs;
     let n_general = hs.len();
-    hs.extend(root_layer_histories(thorough));
+    // (the whole root-layer family in C03 — it is about WAL replay after a process crash; a 45-
+    // history part of it in the quick tiers of C04 / C17, whose per-trace enumerations are larger)
+    let rl = root_layer_histories(thorough);
+    if prop == "C03" || thorough {
+        hs.extend(rl);
+    } else {
+        hs.extend(rl.into_iter().filter(|(h, _, _)| {
+            let first = h["ops"][0]["c"].as_array().map_or(0, |a| a.iter().fold(0u32, |m, x| m | 1 << x[0].as_u64().unwrap()));
+            matches!(first, 0b0011 | 0b1100 | 0b0101)
+        }));
+    }
+    if prop == "C03" || (prop == "C04" && thorough) {
+        hs.extend(wal_geometry_histories());
+    }
     let n_root_layer = hs.len() - n_general;
     if prop == "C17" {
         // the monitor only needs the trace (no image enumeration), so it can afford operations with
@@ -614,10 +648,13 @@ pub fn crash_plan(prop: &str, tier: &str) -> Plan {
             let root_layer = i >= n_general && i < n_general + n_root_layer;
             // every traced operation twice: with the background tasks of the sync pipeline running
             // as they come, and with each of them held back until somebody waits for it
+            // (the WAL-geometry history writes 58 hash-table pages after the meta swap: every instant,
+            // but no nested cuts of its 58-page recovery and in-flight subsets capped at 2)
+            let big = h["universe"][0].as_str().map_or(false, |u| u.starts_with("QUADS:"));
             [false, true]
                 .into_iter()
-                .filter(move |lazy| !(*lazy && root_layer && !thorough))
-                .map(move |lazy| json!({"mode": mode, "hist": h, "target": t, "bound": b, "lazy": lazy, "cap": if thorough { 8 } else { 5 }, "nested": thorough || !lazy, "max_per_instant": if thorough { 96 } else { 40 }}))
+                .filter(move |lazy| !(*lazy && (root_layer || big) && !thorough))
+                .map(move |lazy| json!({"mode": mode, "hist": h, "target": t, "bound": b, "lazy": lazy, "cap": if big { 2 } else if thorough { 8 } else { 5 }, "nested": !big && (thorough || !lazy), "max_per_instant": if big { 4 } else if thorough { 96 } else { 40 }, "stride": if big && !thorough { 40 } else if big { 3 } else { 1 }}))
         })
         .collect();
     if prop == "C03" {
